@@ -125,6 +125,15 @@ mut("m17a_arc_mutex_try_lock", "C17", REF, "            Self::ArcMutex(arc_mutex
 mut("m17b_arc_rwlock_try_write", "C17", REF, "            Self::ArcRwLock(arc_rw_lock) => BorrowMut::RwLockWriteGuard(\n                arc_rw_lock\n                    .write()", "            Self::ArcRwLock(arc_rw_lock) => BorrowMut::RwLockWriteGuard(\n                arc_rw_lock\n                    .try_write()", note="panics only under contention")
 mut("m17c_to_dyn_caller_cfg", "C17", REF, "            reference::ReferenceUnsafe::RcRefCell(rc_ref_cell) => Reference::from_rc_ref_cell(\n                rc_ref_cell\n                    as $crate::reference::__macro_support::Rc<", "            #[cfg(feature = \"alloc\")]\n            reference::ReferenceUnsafe::RcRefCell(rc_ref_cell) => Reference::from_rc_ref_cell(\n                rc_ref_cell\n                    as $crate::reference::__macro_support::Rc<", note="D3 re-introduced")
 mut("m17d_rc_clone_no_refcount", "C17", REF, "Self::RcRefCell(rc_ref_cell) => Self::RcRefCell(Rc::clone(&rc_ref_cell)),", "Self::RcRefCell(rc_ref_cell) => Self::RcRefCell(unsafe { Rc::from_raw(Rc::as_ptr(rc_ref_cell)) }),", note="target freed while a handle lives")
+# ---- C19
+DIM = "src/dimensions.rs"
+mut("m19a_eq_assume_true_false_when_off", "C19", DIM, "        return self.const_eq(rhs);\n        #[cfg(not(any(\n            feature = \"dim_check_release\",\n            all(debug_assertions, feature = \"dim_check_debug\")\n        )))]\n        true\n    }\n    ///With dimension checking on, behaves exactly like [`const_eq`](Unit::const_eq).\n    ///With dimension checking off, always returns false.", "        return self.const_eq(rhs);\n        #[cfg(not(any(\n            feature = \"dim_check_release\",\n            all(debug_assertions, feature = \"dim_check_debug\")\n        )))]\n        false\n    }\n    ///With dimension checking on, behaves exactly like [`const_eq`](Unit::const_eq).\n    ///With dimension checking off, always returns false.", note="only unchecked builds change")
+mut("m19b_nostd_abs", "C19", DIM, "            if self.value >= 0.0 {\n                self.value\n            } else {\n                -self.value\n            },", "            if self.value >= 0.0 {\n                self.value\n            } else {\n                self.value\n            },", note="only no_std builds change")
+mut("m19c_time_tryfrom_unchecked_scale", "C19", DIM, "        if was.unit.eq_assume_true(&SECOND) {\n            Ok(Self((was.value * 1_000_000_000.0) as i64))", "        if was.unit.eq_assume_true(&SECOND) {\n            #[cfg(not(any(feature = \"dim_check_release\", all(debug_assertions, feature = \"dim_check_debug\"))))]\n            return Ok(Self((was.value * 1_000_000.0) as i64));\n            #[allow(unreachable_code)]\n            Ok(Self((was.value * 1_000_000_000.0) as i64))", note="only unchecked builds change")
+mut("m19d_state_update_nostd_no_half", "C19", "src/state.rs", "            + delta_time * (old_velocity + new_velocity) / Quantity::dimensionless(2.0);", "            + delta_time * (old_velocity + new_velocity) / Quantity::dimensionless(if cfg!(feature = \"std\") { 2.0 } else { 1.0 });", note="only no_std builds change")
+mut("m19e_quantity_eq_unchecked", "C19", DIM, "        if self.unit.eq_assume_true(&rhs.unit) {\n            self.value == rhs.value", "        if self.unit.eq_assume_true(&rhs.unit) {\n            self.value >= rhs.value", note="PartialEq of the unchecked build only")
+mut("m19f_libm_ewma_path", "C19", CTRL, "        let lambda = 1.0 - powf(1.0 - self.smoothing_constant, delta_time);", "        let lambda = if cfg!(feature = \"std\") { 1.0 - powf(1.0 - self.smoothing_constant, delta_time) } else { 0.5 };", note="no_std EWMA wrong by far more than the power function's ulps")
+mut("m19g_axle_nodim", "C19", DEV, "            datum /= count as f32;", "            datum /= if cfg!(feature = \"dim_check_release\") { count as f32 } else { count as f32 + 1.0 };", note="only builds without dim_check_release change")
 # ---- C20
 mut("m20a_act_command_only", "C20", WRAP, "Some(terminal_data) => self.inner.set(terminal_data.value)?,", "Some(terminal_data) => { let mut v: TerminalData = terminal_data.value; v.state = None; self.inner.set(v)? }")
 mut("m20b_act_update_first", "C20", WRAP, "        self.update_terminals()?;\n        match self\n            .terminal", "        self.update_terminals()?;\n        self.inner.update()?;\n        match self\n            .terminal")
